@@ -91,7 +91,7 @@ mod verif_unix {
         std::mem::forget(r);
     }
 
-    //@H name=c13_unix_adapter_write props=C05,C13,C14,C20 bound="buffer length 0..=64 bytes (the code passes pointer+length only)" fn=UnixWriteAdapter::write :: the buffered sink's adapter is a datagram writer: one send_to per write, same bytes, configured path, all-or-nothing result through the statistics
+    //@H name=c13_unix_adapter_write props=C05,C06,C07,C13,C14,C20 bound="buffer length 0..=64 bytes (the code passes pointer+length only)" fn=UnixWriteAdapter::write :: the buffered sink's adapter is a datagram writer: one send_to per write, same bytes, configured path, all-or-nothing result through the statistics
     #[kani::proof]
     #[kani::unwind(40)]
     #[kani::stub(std::os::unix::net::UnixDatagram::send_to, send_to_stub)]
@@ -106,8 +106,8 @@ mod verif_unix {
         assert!(PATH_OK.load(Ordering::SeqCst) == 1, "[C13] the datagram goes to the path given at construction");
         let st = snapshot(&ad.stats);
         match r {
-            Ok(w) => { assert!(ok && w == n, "[C13] the socket's byte count is returned"); assert!(st == [w as u64, 1, 0, 0], "[C14] accepted datagram counted as sent"); }
-            Err(ref e) => { assert!(!ok && e.kind() == kind, "[C07,C13] the socket's own error is returned"); assert!(st == [0, 0, m.len() as u64, 1], "[C14] refused datagram counted as dropped with its full size"); }
+            Ok(w) => { assert!(ok && w == n, "[C05,C06,C07,C13] a write is reported as accepted only when the socket accepted the datagram; the socket's byte count is returned"); assert!(st == [w as u64, 1, 0, 0], "[C14] accepted datagram counted as sent"); }
+            Err(ref e) => { assert!(!ok && e.kind() == kind, "[C06,C07,C13] a datagram the socket refused is reported as an error with the socket's own kind (the line writer and flush rely on it to surface the loss)"); assert!(st == [0, 0, m.len() as u64, 1], "[C14] refused datagram counted as dropped with its full size"); }
         }
         let before = CALLS.load(Ordering::SeqCst);
         assert!(ad.flush().is_ok() && CALLS.load(Ordering::SeqCst) == before, "[C13] the adapter's flush sends nothing");
